@@ -128,10 +128,12 @@ impl EventGen for ReuseElement {
             }
         };
         let mut pos = Position::from(&reuse_element);
-        if let Some(bb) = inst_el.content_bbox {
-            pos.update_size(&bb.size());
-        } else if let Some(sz) = instance_size {
+        // a shape's size is its own, evaluated with the variables of this reuse; only a
+        // container (no size of its own) is measured by the box of the processed template
+        if let Some(sz) = instance_size {
             pos.update_size(&sz);
+        } else if let Some(bb) = inst_el.content_bbox {
+            pos.update_size(&bb.size());
         }
         pos.update_shape(&instance_element.name);
         // without a position on the reuse element the instance keeps the template's own
